@@ -48,6 +48,8 @@ const (
 	KUpperSlice  Kind = "[]Upper"
 	KComp        Kind = "Comp"
 	KCompSlice   Kind = "[]Comp"
+	KCompPtr     Kind = "*Comp"
+	KTri         Kind = "Tri" // bool-kinded type with a custom unmarshaler: takes an argument
 	KFunc0       Kind = "func()"
 	KFuncS       Kind = "func(string)"
 	KFuncI       Kind = "func(int)"
@@ -72,6 +74,29 @@ func (u *Upper) UnmarshalFlag(v string) error {
 
 func (u Upper) MarshalFlag() (string, error) {
 	return strings.TrimPrefix(string(u), "U:"), nil
+}
+
+// Tri is a bool-kinded type with custom (un)marshalling: "on" / "off". Although
+// its kind is bool it takes an argument like any other unmarshaler type.
+type Tri bool
+
+func (b *Tri) UnmarshalFlag(v string) error {
+	switch v {
+	case "on":
+		*b = true
+	case "off":
+		*b = false
+	default:
+		return fmt.Errorf("tri: expected on or off")
+	}
+	return nil
+}
+
+func (b Tri) MarshalFlag() (string, error) {
+	if b {
+		return "on", nil
+	}
+	return "off", nil
 }
 
 // Comp is a string type providing completions from a fixed word list.
@@ -129,6 +154,8 @@ var kindTypes = map[Kind]reflect.Type{
 	KUpperSlice:  reflect.TypeOf([]Upper(nil)),
 	KComp:        reflect.TypeOf(Comp("")),
 	KCompSlice:   reflect.TypeOf([]Comp(nil)),
+	KCompPtr:     reflect.TypeOf((*Comp)(nil)),
+	KTri:         reflect.TypeOf(Tri(false)),
 	KFunc0:       reflect.TypeOf((func())(nil)),
 	KFuncS:       reflect.TypeOf((func(string))(nil)),
 	KFuncI:       reflect.TypeOf((func(int))(nil)),
@@ -503,6 +530,9 @@ type Built struct {
 }
 
 func plainType(kind string) reflect.Type {
+	if strings.HasPrefix(kind, "alias:") {
+		return Kind(kind[len("alias:"):]).Type()
+	}
 	switch kind {
 	case "int":
 		return reflect.TypeOf(int(0))
@@ -521,6 +551,9 @@ func plainType(kind string) reflect.Type {
 }
 
 func plainInit(p *Plain) interface{} {
+	if strings.HasPrefix(p.Kind, "alias:") {
+		return reflect.Zero(plainType(p.Kind)).Interface()
+	}
 	switch p.Kind {
 	case "int":
 		n, _ := strconv.Atoi(p.Init)
@@ -658,6 +691,23 @@ func (bl *builder) bindGroup(cmdID, path string, g *Group, v reflect.Value, host
 		f := v.FieldByName(o.Field)
 		b.OptVal[o.ID] = f
 		bl.initOpt(o, f)
+	}
+	// alias plain fields: an untagged slice field sharing the backing array of a
+	// pre-populated slice option (Init = option ID); the snapshot is a deep copy
+	for i := range g.Plain {
+		p := &g.Plain[i]
+		if !strings.HasPrefix(p.Kind, "alias:") {
+			continue
+		}
+		of, ok := b.OptVal[p.Init]
+		if !ok || of.Kind() != reflect.Slice || of.Len() == 0 {
+			continue
+		}
+		f := v.FieldByName(p.Field)
+		f.Set(of)
+		cp := reflect.MakeSlice(of.Type(), of.Len(), of.Len())
+		reflect.Copy(cp, of)
+		b.PlainIni[cmdID+"/"+path+"/"+p.Field] = cp.Interface()
 	}
 	for i := range g.Groups {
 		sg := &g.Groups[i]
